@@ -39,10 +39,11 @@ type vstate struct {
 	bound []bool // limb j available as the Coq variable <name>j
 	init  []bool // limb j may still hold the value it had at function / fragment entry
 	sinit bool   // scalar: same
+	carry bool   // scalar: the current value is 0 or 1 (a carry / borrow, see carry.go)
 }
 
 func (s *vstate) clone() *vstate {
-	return &vstate{whole: s.whole, sinit: s.sinit, bound: append([]bool(nil), s.bound...), init: append([]bool(nil), s.init...)}
+	return &vstate{whole: s.whole, sinit: s.sinit, carry: s.carry, bound: append([]bool(nil), s.bound...), init: append([]bool(nil), s.init...)}
 }
 
 type env struct {
